@@ -148,9 +148,9 @@ func (c *Collection) DeleteSubDocPaths(
 			cas: newCas,
 		}
 		var revSeqNo uint64
-		row := txn.QueryRow(`SELECT value, xattrs, revSeqNo FROM documents WHERE collection=?1 AND key=?2`, c.id, key)
+		row := txn.QueryRow(`SELECT value, xattrs, revSeqNo, exp, isJSON, tombstone FROM documents WHERE collection=?1 AND key=?2`, c.id, key)
 		var rawXattrs []byte
-		err := scan(row, &e.value, &rawXattrs, &revSeqNo)
+		err := scan(row, &e.value, &rawXattrs, &revSeqNo, &e.exp, &e.isJSON, &e.isDeletion)
 		if err != nil {
 			return nil, remapKeyError(err, key)
 		}
